@@ -249,6 +249,7 @@ func (p *c07) Run(rec *core.Recorder, seed uint64, idx int, tier string) {
 		vals := []interface{}{0, -5, 42, 3.5, -0.25, true, false, nil, int64(1 << 40), 1e6,
 			c07Op(1), c07Op(2), c07Flag(true), c07Ratio(1.5), c07Tag{"b"}, &c07Tag{"i"}, c07Str("<typed & 'string'>"), []byte("<bytes&>"), &sp, fmt.Errorf("error <value> & \"text\""),
 			[]string{"<a>", "b&c", "'q'"}, []interface{}{"<x>", 1, "\"y\""}, map[string]string{"<k>": "<v>&"}, map[string]interface{}{"k": "<v>"}, [2]string{"<", ">"}, c07Strs{"<s>"},
+			map[string]interface{}{"<k>": "v", "a&b": []interface{}{"'"}}, []interface{}{map[string]interface{}{"\"q\"": 1, "k'": "<v>"}}, map[string]interface{}{"plain": map[string]interface{}{"<in>": 1}},
 			uint8('<'), int32('&'), struct{ A string }{"<f>"}, time.Duration(90) * time.Second, c07Both{3}, json.Number("1<2"), template07("<t>")}
 		v := vals[idx%len(vals)]
 		plain := renderFresh(map[string]string{"main": "{{ v }}"}, "main", map[string]interface{}{"v": v}, nil)
